@@ -15,7 +15,8 @@ C06 — reader level: model of the read path of the SQL feeds *including their c
       per reader instance, keyed by the DSL statement)                 and statement the emitted SQL; gone at restart
   provider/feed/lazy.py  Feed.Reader.BACKEND (in-memory DuckDB,    `State.backend`
       class attribute), register(origin.key, frame)
-  lazy.Feed.Reader.PARTITIONS keyed by Origin (== by `source`)     `State.partitions`
+  lazy.Feed.Reader.PARTITIONS keyed by Origin (`__eq__`: same       `State.partitions` (origin class, source)
+      class and same `source`; the hash is the source's)
   lazy.Feed.Reader.__call__: register the statement's tables       `registerTables`
       unless RESULTS.exists(parsed) or the origin is registered
 
@@ -41,7 +42,12 @@ structure Feed where
   srcs : Sources
   /-- index of the storage this feed reads -/
   storage : Nat
+  /-- lazy feeds: the origin class (`Csv`, `Parquet`, `Inline`) that provides a table; `Csv` if not listed -/
+  origins : List (Source × String) := []
   deriving Repr, Inhabited
+
+/-- `type(origin).__name__` of the origin providing table `t` -/
+def Feed.classOf (f : Feed) (t : Source) : String := (f.origins.lookup t).getD "Csv"
 
 /-- `Results._statement2key` before hashing: the rendered statement with its literal values in line -/
 abbrev Key := Render.Text
@@ -53,7 +59,8 @@ structure State where
   mem : List (Key × ORel) := []
   disk : List (Key × ORel) := []
   backend : Db := []
-  partitions : List Source := []
+  /-- `PARTITIONS`: keyed by the origin, and `Origin.__eq__` is "same class and same source" -/
+  partitions : List (String × Source) := []
   /-- `Reader._parse_statement` cache: (reader = index of the feed, statement) ↦ emitted SQL -/
   parsed : List ((Nat × Source) × SqlSel) := []
   deriving Repr, Inhabited
@@ -120,14 +127,15 @@ origin is not yet in `PARTITIONS` (origins compare by their source only) -/
 def registerTables (st : State) (f : Feed) : List Source → State
   | [] => st
   | t :: ts =>
-    let st := if st.partitions.contains t then st else
+    let st := if st.partitions.contains (f.classOf t, t) then st else
       match f.srcs.lookup t with
       | none => st
       | some key =>
         match (storageOf st f).lookup key with
         | none => st
         | some content =>
-          { st with backend := (key, content) :: st.backend.filter (·.1 != key), partitions := t :: st.partitions }
+          { st with backend := (key, content) :: st.backend.filter (·.1 != key),
+                    partitions := (f.classOf t, t) :: st.partitions }
     registerTables st f ts
 
 /-- `Reader._parse_statement(statement)` of reader `i`: the cached SQL, else parse and remember (a failing parse is
